@@ -5,6 +5,9 @@ import os
 
 V = os.path.dirname(os.path.dirname(os.path.abspath(__file__)))
 CHECKS = {
+    'C12': ('hostile uplink streams from four generators (noise, corrupted valid traffic, grammar-generated CRC-valid packets with adversarial length/address/type/field values, delimiter-less runs of 255-4096 bytes) in debug and normal mode against generated configurations; zero ASan/UBSan reports, normal exit, and after every stream a probe packet must be delivered; batches per process with re-run of the tail after a crash',
+            'gcc ASan (512 B red zones) + UBSan bounds-strict; probe preceded by a resync delimiter; uninitialised reads not part of the statement',
+            'runtime monitoring: ASan/UBSan + liveness probe oracle over generated hostile byte streams'),
     'C13': ('per case (own process): six identical start attempts with 1-3 structure-aware mutations of a valid configuration triple (answering or silent interface), then a start with a valid configuration; return value in {0,1}, ASan/UBSan/LSan, held-set empty at return, no wait-for cycle / watchdog, no thread alive after a failed start, allocated bytes not growing, valid restart verified through its getters',
             'watchdog 120 s per case, expiry inside bidib_start_pointer is a violation; leak criterion = growth at each of the last three of six identical attempts + LSan',
             'runtime monitoring: ASan/UBSan/LSan + lock/thread/heap monitors over mutated configurations'),
